@@ -131,6 +131,7 @@ func (tq *WorkerTaskQueue) worker(executor Executor) {
 				tq.PeerTaskQueue.ThawRound()
 				pid, tasks, _ = tq.PeerTaskQueue.PopTasks(targetWork)
 				tq.lockTopics.Unlock()
+				verifhook.Note("tq.tick", "queue", tq, "popped", len(tasks))
 			}
 		}
 		for _, task := range tasks {
